@@ -330,6 +330,7 @@ theorem step_execs (P : Program) (F : Flags) (c c' : Config) (l : Label) (h : st
       | none => rfl
       | acq => rfl
       | rel => rfl
+      | wait k => rfl
     · right
       subst h2
       refine ⟨k, h1, ?_, rfl⟩
